@@ -649,6 +649,34 @@ def ex_match(c):
 EXECUTORS.update({"match": ex_match})
 
 
+def ex_stretch_private(c):
+    """Beyond the listed properties: the two private kernels of match.py called directly, with the defaults of their
+    optional arguments (x omitted -> evenly spaced dx apart, integral values omitted -> zeros, window indices omitted ->
+    evenly spaced)."""
+    import traffic_weaver.match as match_mod
+    y = arr(c["y"], c.get("ycontainer", "array"))
+    x = None if c["xnone"] else arr(c["x"])
+    kw = {"alpha": fl(c["alpha"]), "integral_method": c["rule"]}
+    if c["xnone"]:
+        kw["dx"] = fl(c["dx"])
+
+    def go():
+        if c["kind"] == "window":
+            return match_mod._integral_matching_stretch(x, y, integral_value=fl(c["target"]), **kw)
+        if not c["valsnone"]:
+            kw["integral_values"] = [fl(v) for v in c["values"]]
+        if not c["fpinone"]:
+            kw["fixed_points_indices_in_x"] = list(c["fpi"])
+        return match_mod._interval_integral_matching_stretch(x, y, **kw)
+    oc, o = guarded(go)
+    e = dict(c)
+    e.update(outcome=oc, out=vec(o) if oc == "ok" else [])
+    return e
+
+
+EXECUTORS.update({"stretch_private": ex_stretch_private})
+
+
 # ---------------------------------------------------------------------------------------------- C02 recreate + match pipeline
 import math  # noqa: E402
 
